@@ -114,9 +114,11 @@ def run (j : Json) : P Json := do
     | some t => return ok (t.1 : Json)
   | "crowdingSort" =>
     return ok (natsJson ((crowdingSort (← listF parseInd j "pop") (← natF j "nObj")).map (·.number)))
+  | "crowdingSortOld" =>
+    return ok (natsJson ((crowdingSortOld (← listF parseInd j "pop") (← natF j "nObj")).map (·.number)))
   | "nsga3Shift" =>
     let rows ← mapM' (fun r => do mapM' parseR (← r.getArr?).toList) (← arrF j "rows")
-    return ok (Json.arr ((nsga3Shift rows).map ratsJson).toArray)
+    return ok (Json.arr ((nsga3Shift (← listF parseDir j "dirs") rows).map ratsJson).toArray)
   | s => throw s!"unknown site {s}"
 
 def handle (j : Json) : Json :=
